@@ -3,8 +3,9 @@ import vlib
 CFG = dict(
     imports=["From Verif.Common Require Import Labels Packet.", "From Verif.C29 Require Import Model Spec."],
     checker="check_case",
-    n=dict(quick=150, thorough=3000),
-    shard=40,
+    n=dict(quick=120, thorough=3000),
+    shard=35,
+    deps=["Common", "C06"],
     rule="per case: 3 namespaces with generated labels, 3-5 pods (labels, service account, named container ports, IPv4/IPv6; "
          "some carry pcns./pcsa. labels), service accounts with labels, 1-2 NetworkPolicies (podSelector/namespaceSelector with "
          "matchLabels and matchExpressions In/NotIn/Exists/DoesNotExist, empty and nil selectors, 0-3 peers incl. ipBlock with except "
@@ -16,7 +17,8 @@ CFG = dict(
     trusted=["Coq 8.16.1 kernel + vm_compute",
              "hand-written model coq/theories/C29/Model.v tied to conversion.go / updateprocessors by this correspondence run",
              "reference Kubernetes NetworkPolicy semantics and Calico rule semantics in coq/theories/C29/Spec.v (read them)",
-             "the real selector parser (libcalico-go/lib/selector/parser) used by the driver to turn selector strings into ASTs",
+             "the real selector parser (libcalico-go/lib/selector/parser) used by the driver to turn selector strings into ASTs; "
+             "cross-checked on every case: the C06 model of tokenizer/parser/printer maps the model's selector TEXTS (equal byte for byte to the real strings) to the same ASTs",
              "Go driver harness/C29 (overlay build, tag verif)"],
     assumptions=["an address identifies at most one endpoint (both semantics are stated over the connection's end points; "
                  "c29_rule_bridge: `who` maps an address to its endpoint)",
